@@ -550,9 +550,8 @@ pub fn build_struct(choices: &[(&str, usize)]) -> Vec<u8> {
             &call(if0),
             &local_tee(1),
             &i32_const(4),
-            &[0x28, 0x42], // i32.load with explicit memory index
-            &uleb_v(m0 as u64),
-            &[0x00],
+            // i32.load; the explicit-memory-index encoding only when m0 is not memory 0
+            &(if m0 == 0 { vec![0x28, 0x02, 0x00] } else { cat(&[&[0x28, 0x42], &uleb_v(m0 as u64), &[0x00]]) }),
             &[0x6a],             // i32.add
             &[END],
         ]),
